@@ -1,46 +1,46 @@
-"""C01 - Markovian SIR simulators sample the exact network SIR process.
+"""C02 - Markovian SIS simulators sample the exact network SIS process.
 
 Families
-  gil_walk   E1: seeded walks over reachable states of Gillespie_SIR; at every
+  gil_walk   E1: seeded walks over reachable states of Gillespie_SIS; at every
              state the exact clock rate and jump law of the real code are
              extracted through the seam and compared with the CTMC reference;
              at the end of each walk both return modes are compared row by row.
-  law        E3: seeded samples of fast_SIR (both code paths) and Gillespie_SIR;
-             the law of the full status vector at two times and of the final
-             state is tested against expm(Q T) / the absorption law.
+  law        E3: seeded samples of fast_SIS (both code paths) and Gillespie_SIS;
+             the law of the full status vector at two times is tested against
+             expm(Q T) of the 2^N-state generator (T < tmax).
 """
 import os
 import random
 
 from eonsim import cases, framework, markov
 
-PROPERTY = "C01"
+PROPERTY = "C02"
 LEVEL = "exploration"
-SIM = "Gillespie_SIR"
+SIM = "Gillespie_SIS"
 RULE = ("gil_walk: seeded swarm of (graph N<=6, weights, rates incl. 0, initial I/R sets, tmin, labels); "
-        "each walk visits reachable epidemic states of Gillespie_SIR and enumerates the draw tree of one step "
+        "each walk visits reachable epidemic states of Gillespie_SIS and enumerates the draw tree of one step "
         "at each (local oracle). A case is distinct by (graph+parameter digest, status vector) and non-trivial "
-        "when it was probed. law: seeded samples of fast_SIR/Gillespie_SIR per configuration; distinct = "
+        "when it was probed. law: seeded samples of fast_SIS/Gillespie_SIS per configuration; distinct = "
         "configuration x statistic cell with expected count >= 10.")
 ASSUMPTIONS = [
     "random.random/choice/sample/expovariate and numpy.random.binomial have their documented distributions",
     "each use of a uniform draw in the code is a monotone step function of the draw (breakpoints located to 2^-35)",
-    "fast_SIR's law is decided statistically (exact binomial tails, total false-alarm probability <= 1e-9 per run)",
+    "fast_SIS's law is decided statistically (exact binomial tails, total false-alarm probability <= 1e-9 per run)",
 ]
-COMPONENTS = {"real": ["EoN.Gillespie_SIR", "EoN.fast_SIR", "EoN.fast_nonMarkov_SIR", "EoN._ListDict_", "EoN.myQueue",
+COMPONENTS = {"real": ["EoN.Gillespie_SIS", "EoN.fast_SIS", "EoN._ListDict_", "EoN.myQueue",
                        "EoN.Simulation_Investigation", "networkx", "numpy"],
               "stub": ["random source (SimRandom / seeded random.Random)", "numpy.random.binomial (seeded RandomState)"]}
 
 N_LAW_BATCH = {"quick": 25000, "thorough": 250000}
 LAW_BATCHES = 4
 N_LAW_CFG = {"quick": 24, "thorough": 96}
-KINDS = ["fast_plain", "fast_nodew", "general_edgew", "general_zero", "gillespie"]
+KINDS = ["fast_plain", "fast_nodew", "fast_edgew", "fast_zero", "gillespie"]
 
 
 def plan(tier):
     if tier == "quick":
-        return [("gil_walk", 1200), ("law", N_LAW_CFG[tier] * LAW_BATCHES)]
-    return [("gil_walk", 60000), ("law", N_LAW_CFG[tier] * LAW_BATCHES)]
+        return [("gil_walk", 500), ("law", N_LAW_CFG[tier] * LAW_BATCHES)]
+    return [("gil_walk", 25000), ("law", N_LAW_CFG[tier] * LAW_BATCHES)]
 
 
 def law_configs(seed, tier):
@@ -51,7 +51,7 @@ def law_configs(seed, tier):
         ew = nw = None
         if kind == "fast_nodew":
             nw = rng.choice(["dyadic", "tenth", "twolevel"])
-        if kind == "general_edgew":
+        if kind == "fast_edgew":
             ew = rng.choice(["dyadic", "tenth", "twolevel", "somezero"])
             nw = rng.choice([None, "tenth"])
         if kind == "gillespie":
@@ -62,7 +62,7 @@ def law_configs(seed, tier):
         n = len(spec["nodes"])
         tau = rng.choice([0.3, 0.7, 1.0, 1.3])
         gamma = rng.choice([0.3, 0.7, 1.0, 1.3])
-        if kind == "general_zero":
+        if kind == "fast_zero":
             if rng.random() < 0.5:
                 gamma = 0.0
             else:
@@ -70,10 +70,10 @@ def law_configs(seed, tier):
         idx = list(range(n))
         rng.shuffle(idx)
         I0 = idx[:rng.choice([1, 1, 2])]
-        R0 = idx[len(I0):len(I0) + 1] if rng.random() < 0.3 else []
+        R0 = []
         out.append({"kind": kind, "graph": spec, "tau": tau, "gamma": gamma, "I0": I0, "R0": R0,
-                    "ew": bool(ew), "nw": bool(nw), "T": [0.5, 2.0],
-                    "sim": "Gillespie_SIR" if kind == "gillespie" else "fast_SIR"})
+                    "ew": bool(ew), "nw": bool(nw), "T": [1.0, 4.0], "tmax": 5.0,
+                    "sim": "Gillespie_SIS" if kind == "gillespie" else "fast_SIS"})
     return out
 
 
@@ -90,7 +90,7 @@ def run_one(family, rng, idx, tier):
     if family == "gil_walk":
         case = markov.gen_walk_case(rng, SIM)
         stats, keys = {}, set()
-        v, skipped = markov.run_walk(case, rng, 12 if tier == "quick" else 14, stats, keys)
+        v, skipped = markov.run_walk(case, rng, 25 if tier == "quick" else 30, stats, keys)
         stats["evaluations"] = stats.get("states_probed", 0)
         for flag, name in ((case["ew"], "walks_edge_weighted"), (case["nw"], "walks_node_weighted"),
                            (case["tau"] == 0 or case["gamma"] == 0, "fault_F4_zero_rate"),
